@@ -196,6 +196,31 @@ func VerifC12Auth() {
 	rt.Assert(canWrite, "author-could-write-at-cited-record")
 }
 
+// VerifC12AuthBatch: in one batch every value is judged on its own: it is stored exactly when its author could
+// write at the record that this value cites, whatever else the batch carries and in whatever order.
+func VerifC12AuthBatch() {
+	vC12Install()
+	ctx := context.Background()
+	bobPerm := []list.AclPermissions{list.AclPermissionsWriter, list.AclPermissionsReader, list.AclPermissionsNone}[rt.Choose(3)]
+	w := verifkv.NewWorld()
+	s := vC12Store(w, vC12Acl(bobPerm))
+	keys := []string{"k", "j"}
+	var vals []*spacesyncproto.StoreKeyValue
+	var can []bool
+	for i := 0; i < 2; i++ {
+		identity := []string{"alice", "bob", "mallory"}[rt.Choose(3)]
+		aclId := []string{"acl0", "acl1"}[rt.Choose(2)]
+		vals = append(vals, vC12Value(keys[i], "dev1", identity, aclId, 5))
+		can = append(can, identity == "alice" || (identity == "bob" && aclId == "acl0" && bobPerm == list.AclPermissionsWriter))
+	}
+	rt.Assert(s.SetRaw(ctx, vals...) == nil, "setraw-skips-bad-values-without-error")
+	for i := 0; i < 2; i++ {
+		_, stored := w.Docs[keys[i]+"-dev1"]
+		rt.Assert(stored == can[i], "each-value-of-a-batch-is-authorised-on-its-own")
+	}
+	rt.Reach("batch")
+}
+
 // VerifC12Fault: a failed write leaves the advertised index equal to what is stored.
 func VerifC12Fault() {
 	vC12Install()
